@@ -70,6 +70,7 @@ fn profile_for(prop: &str) -> Profile {
         "C11" => {
             p.registry_pct = 45;
             p.fail_pct = 12;
+            p.code_ops_pct = 12;
         }
         "C12" => {
             p.admin_pct = 40;
@@ -100,11 +101,17 @@ pub fn run(ctx: &Ctx) -> Report {
     let mut rep = parallel(ctx.workers, |w| {
         let mut rep = Report::new();
         let mut rng = Rng::new(derive(ctx.seed, &prop, w as u64, 0));
-        let n = ctx.scale(if sweep { 400 } else { 1600 }, 16 * if sweep { 4000 } else { 12000 }) / ctx.workers as u64;
+        let n = ctx.scale(if sweep { 400 } else { 1600 }, 16 * if sweep { 12000 } else { 40000 }) / ctx.workers as u64;
         for i in 0..n.max(1) {
             if ctx.expired() {
                 rep.bump("e1/stopped_by_deadline");
                 break;
+            }
+            let mut profile = profile.clone();
+            if ctx.tier.is_thorough() && i % 2 == 1 {
+                // deeper and larger trees
+                profile.max_depth = 6;
+                profile.max_nodes = 40;
             }
             let opts = HistoryOpts { profile: profile.clone(), len: rng.range(10, if sweep { 14 } else { 40 }) as usize, sweep, matrix: i == 0 && w < 2 };
             let (case, discs) = run_history(&mut rng, &opts, &mut rep, &prop);
@@ -118,6 +125,23 @@ pub fn run(ctx: &Ctx) -> Report {
             }
             record(&mut rep, &case, discs);
         }
+        if prop == "C01" || prop == "C10" {
+            // trees with staking / distribution / ibc / gov messages: model-free invariants only
+            let n = ctx.scale(240, 16 * 3000) / ctx.workers as u64;
+            for _ in 0..n.max(1) {
+                if ctx.expired() {
+                    break;
+                }
+                let len = rng.range(8, 20) as usize;
+                let (case, discs) = run_opaque_history(&mut rng, len, &mut rep);
+                rep.bump("e1/opaque/histories");
+                for d in discs {
+                    for p in &d.props {
+                        rep.violate(p, d.sig.clone(), d.detail.clone(), json!({"engine": "e1_opaque", "case": case, "first_discrepancy": d.detail}));
+                    }
+                }
+            }
+        }
         rep
     });
     rep.rule = rule(&prop);
@@ -126,7 +150,7 @@ pub fn run(ctx: &Ctx) -> Report {
     rep.assume("contracts observe (probe) at entry, before their own writes: a contract's view of its own in-flight writes through the querier is not asserted");
     rep.assume("messages for staking/distribution/ibc/gov/stargate are outside the chain model (see C14-C17)");
     let req: Vec<String> = match prop.as_str() {
-        "C01" => vec!["e1/atomicity/err_state_unchanged_checks".into(), "e1/sweep/failure_points".into(), "e1/tx/multi/ok".into(), "e1/tx/multi/err".into(), "e1/tx/sudo/err".into(), "e1/tx/wasm_sudo/err".into(), "e1/tx/exec-helper/ok".into(), "e1/tx/mint/err".into()],
+        "C01" => vec!["e1/atomicity/err_state_unchanged_checks".into(), "e1/sweep/failure_points".into(), "e1/tx/multi/ok".into(), "e1/tx/multi/err".into(), "e1/tx/sudo/err".into(), "e1/tx/wasm_sudo/err".into(), "e1/tx/exec-helper/ok".into(), "e1/tx/mint/err".into(), "e1/opaque/err_state_unchanged_checks".into(), "e1/opaque/multi_equals_sequence_checks".into()],
         "C02" | "C03" => {
             let mut v = vec![];
             for mode in ["Always", "Error", "Success", "Never"] {
@@ -158,7 +182,7 @@ pub fn run(ctx: &Ctx) -> Report {
 pub fn replay(ctx: &Ctx, w: &Value) -> Report {
     let mut rep = Report::new();
     let case: Case = serde_json::from_value(w["case"].clone()).expect("case");
-    let discs = run_case(&case, &mut rep, &ctx.prop);
+    let discs = if w["engine"] == "e1_opaque" { replay_opaque(&case, &mut rep) } else { run_case(&case, &mut rep, &ctx.prop) };
     record(&mut rep, &case, discs);
     rep
 }
